@@ -407,6 +407,22 @@ void start_generation(std::shared_ptr<Conn> c)
 // the tap log shows exactly that for traffic leaving sender_node from port
 // `sender_port`: some segment's last event is a drop, it is never transmitted
 // again, and at the instant of the drop nothing else could still trigger a resend.
+// bytes queue `qid` holds just before event `idx` (arrivals at its pre-tap that were not dropped, minus departures)
+long long held_before(World const& w, int qid, std::size_t idx)
+{
+	QueueInfo const& q = w.queues[std::size_t(qid)];
+	long long held = 0;
+	for (std::size_t i = 0; i < idx && i < w.events.size(); ++i)
+	{
+		TapEvent const& e = w.events[i];
+		long long const sz = (long long)e.payload + e.overhead;
+		if (e.tap == q.pre_tap && e.kind == 0) held += sz;
+		else if (e.tap == q.pre_tap && e.kind == 2 && e.outermost) held -= sz;
+		else if (e.tap == q.post_tap && e.kind == 0) held -= sz;
+	}
+	return held;
+}
+
 bool stall_is_idle_drop(World const& w, int sender_node, int receiver_node, udp::endpoint sender)
 {
 	struct Seg { bool in_flight = false; bool delivered = false; bool acked = false; bool dropped_last = false; std::size_t drop_idx = 0; };
@@ -427,7 +443,16 @@ bool stall_is_idle_drop(World const& w, int sender_node, int receiver_node, udp:
 				// anything else that could trigger a resend?
 				bool other = false;
 				for (auto const& kv : segs) if (kv.first != e.seq && (kv.second.in_flight || (kv.second.delivered && !kv.second.acked))) other = true;
-				if (!other) drops.push_back({i, e.seq});
+				// the recorded finding is about a *legitimate* tail drop (the queue really was too full, e.g. with
+				// acknowledgements of the previous phase); a queue that drops a packet it has room for is something else
+				bool legit = true;
+				if (ti.queue_id >= 0 && e.during_forward)
+				{
+					// (the packet's own arrival at the pre-tap is already part of the account at this point)
+					QueueInfo const& q = w.queues[std::size_t(ti.queue_id)];
+					legit = q.spec.cap > 0 && held_before(w, ti.queue_id, i) > q.spec.cap;
+				}
+				if (!other && legit) drops.push_back({i, e.seq});
 			}
 		}
 		else if (e.type == 3 && e.kind == 0 && ti.role == 3 && ti.node == sender_node)
